@@ -31,12 +31,13 @@ type World struct {
 	mu       sync.Mutex
 	typeTags map[string]int
 	tagTypes []types.Type
+	axiomsChecked map[bool]bool // the global axiom set has been submitted for a consistency check (per arithmetic mode)
 }
 
 const modPath = "github.com/akrennmair/updog"
 
 func LoadWorld(repo string, trustedDir string) (*World, error) {
-	w := &World{repo: repo, ssaPkgs: map[string]*ssa.Package{}, typPkgs: map[string]*types.Package{}, funcs: map[string]*ssa.Function{}, typeTags: map[string]int{}}
+	w := &World{repo: repo, ssaPkgs: map[string]*ssa.Package{}, typPkgs: map[string]*types.Package{}, funcs: map[string]*ssa.Function{}, typeTags: map[string]int{}, axiomsChecked: map[bool]bool{}}
 	cfg := &packages.Config{
 		Mode:       packages.NeedName | packages.NeedFiles | packages.NeedCompiledGoFiles | packages.NeedImports | packages.NeedDeps | packages.NeedTypes | packages.NeedSyntax | packages.NeedTypesInfo | packages.NeedTypesSizes | packages.NeedModule,
 		Dir:        repo,
